@@ -428,16 +428,15 @@ impl SwarmDriver {
                         for sender in senders {
                             let new_accumulated_record = new_accumulated_record.clone();
 
-                            sender
-                                .send(Ok(new_accumulated_record))
-                                .map_err(|_| NetworkError::InternalMsgChannelDropped)?;
+                            Self::deliver_get_record_result(sender, Ok(new_accumulated_record));
                         }
                     } else {
                         for sender in senders {
                             let result_map = result_map.clone();
-                            sender
-                                .send(Err(GetRecordError::SplitRecord { result_map }))
-                                .map_err(|_| NetworkError::InternalMsgChannelDropped)?;
+                            Self::deliver_get_record_result(
+                                sender,
+                                Err(GetRecordError::SplitRecord { result_map }),
+                            );
                         }
                     }
                 }
@@ -481,11 +480,12 @@ impl SwarmDriver {
                     "Multiple versions ({num_of_versions}) found for record {data_key_address:?}!"
                 );
                 for sender in senders {
-                    sender
-                        .send(Err(GetRecordError::SplitRecord {
+                    Self::deliver_get_record_result(
+                        sender,
+                        Err(GetRecordError::SplitRecord {
                             result_map: result_map.clone(),
-                        }))
-                        .map_err(|_| NetworkError::InternalMsgChannelDropped)?;
+                        }),
+                    );
                 }
 
                 return Ok(());
@@ -495,9 +495,7 @@ impl SwarmDriver {
             if num_of_versions == 0 {
                 debug!("No versions found for record {data_key_address:?}!");
                 for sender in senders {
-                    sender
-                        .send(Err(GetRecordError::RecordNotFound))
-                        .map_err(|_| NetworkError::InternalMsgChannelDropped)?;
+                    Self::deliver_get_record_result(sender, Err(GetRecordError::RecordNotFound));
                 }
                 return Ok(());
             }
@@ -521,9 +519,7 @@ impl SwarmDriver {
                     Err(GetRecordError::RecordNotFound)
                 };
                 for sender in senders {
-                    sender
-                        .send(result.clone())
-                        .map_err(|_| NetworkError::InternalMsgChannelDropped)?;
+                    Self::deliver_get_record_result(sender, result.clone());
                 }
             }
         } else {
@@ -564,9 +560,7 @@ impl SwarmDriver {
                     debug!("Get record task {query_id:?} failed with {:?} expected holders not responded, error {get_record_err:?}", cfg.expected_holders);
                 }
                 for sender in senders {
-                    sender
-                        .send(Err(GetRecordError::RecordNotFound))
-                        .map_err(|_| NetworkError::InternalMsgChannelDropped)?;
+                    Self::deliver_get_record_result(sender, Err(GetRecordError::RecordNotFound));
                 }
             }
             kad::GetRecordError::Timeout { key } => {
@@ -593,9 +587,7 @@ impl SwarmDriver {
                         "Get record task {query_id:?} for {pretty_key:?} timed out with split result map"
                     );
                     for sender in senders {
-                        sender
-                            .send(Err(GetRecordError::QueryTimeout))
-                            .map_err(|_| NetworkError::InternalMsgChannelDropped)?;
+                        Self::deliver_get_record_result(sender, Err(GetRecordError::QueryTimeout));
                     }
 
                     return Ok(());
@@ -612,14 +604,23 @@ impl SwarmDriver {
                 warn!("Get record task {query_id:?} for {pretty_key:?} returned insufficient responses. {:?} did not return record", cfg.expected_holders);
                 for sender in senders {
                     // Otherwise report the timeout
-                    sender
-                        .send(Err(GetRecordError::QueryTimeout))
-                        .map_err(|_| NetworkError::InternalMsgChannelDropped)?;
+                    Self::deliver_get_record_result(sender, Err(GetRecordError::QueryTimeout));
                 }
             }
         }
 
         Ok(())
+    }
+
+    /// Hand one waiting caller its outcome. A caller that has gone away (dropped its receiver)
+    /// must not keep the callers queued behind it from receiving theirs.
+    fn deliver_get_record_result(
+        sender: oneshot::Sender<std::result::Result<Record, GetRecordError>>,
+        result: std::result::Result<Record, GetRecordError>,
+    ) {
+        if sender.send(result).is_err() {
+            debug!("A get_record caller went away before its result was ready");
+        }
     }
 
     fn send_record_after_checking_target(
@@ -634,9 +635,7 @@ impl SwarmDriver {
         };
 
         for sender in senders {
-            sender
-                .send(res.clone())
-                .map_err(|_| NetworkError::InternalMsgChannelDropped)?;
+            Self::deliver_get_record_result(sender, res.clone());
         }
 
         Ok(())
